@@ -11,7 +11,9 @@ VARIABLE l
 vars == <<l>>
 
 Bad(r) ==
-  LET had == r.before.rid # "?" /\ r.before.off >= 0 IN
+  \* (op "gclive": the collector as the tool drives it; reported = how a source still reports the checkpoint's
+  \*  replication id - as its current id, as its previous id, or not at all: only then may the position go)
+  LET had == r.before.rid # "?" /\ r.before.off >= 0 /\ r.reported # "gone" IN
   IF ~had THEN {}
   ELSE (IF r.after.rid = "?" \/ r.after.off < 0 THEN {"C17_ResumePositionLost"} ELSE {})
        \cup (IF r.after.rid # "?" /\ r.after.off >= 0 /\ r.after.off < r.before.off THEN {"C17_ResumePositionWentBack"} ELSE {})
